@@ -128,7 +128,9 @@ class EMsoftH5ebsdFile(H5ebsdFile):
         ny, nx = self.map_shape
         step_y = self.header_dict["Step Y"]
         self.y = np.sort(np.tile(np.arange(ny) * step_y, nx))
-        self.x = self.data_dict["X Position"][:]
+        # Datasets with one element per map point are returned as scalars
+        # if the map has a single point
+        self.x = np.atleast_1d(self.data_dict["X Position"])
 
     def set_crystal_map_data(self):
         """Set necessary crystal map data from dictionaries."""
@@ -147,7 +149,7 @@ class EMsoftH5ebsdFile(H5ebsdFile):
 
     def set_phase_id(self):
         """Set phase ID array from dictionaries."""
-        self.phase_id = self.data_dict["Phase"][:]
+        self.phase_id = np.atleast_1d(self.data_dict["Phase"])
 
     def set_phase_list(self):
         """Set phase list from dictionaries.
@@ -177,10 +179,11 @@ class EMsoftH5ebsdFile(H5ebsdFile):
         dd = self.data_dict
         for property_name in expected_properties:
             if property_name in dd.keys():
-                prop = dd[property_name]
+                prop = np.atleast_1d(dd[property_name])
                 if prop.shape[-1] == n_top_matches and np.prod(prop.shape) > map_size:
-                    # Not a refined dot product file
-                    prop = prop[:map_size].reshape(map_size, n_top_matches)
+                    # Not a refined dot product file. The first axis is
+                    # missing if the dataset has a single row.
+                    prop = prop.reshape(-1, n_top_matches)[:map_size]
                 else:
                     # Refined dot product file
                     prop = prop.reshape(map_size)
